@@ -45,6 +45,7 @@ func propC01(c *Ctx) {
 	// a deferred recover covers the goroutine it runs in and no other
 	c.ruleSequentialAs("C01-NO-GOROUTINES")
 	c.ruleBuildRecoverBoundary()
+	c.ruleSelfFormat("C01-SELF-FORMAT")
 }
 
 // ---------- helpers: which functions are (inside) reachable declared functions ----------
@@ -4160,5 +4161,95 @@ func (c *Ctx) ruleBuildRecoverBoundary() {
 				r.Bad("C01-BUILD-RECOVER-BOUNDARY", f.Name()+" | pipeline", "the build pipeline is started outside the recovering entry", c.pos(f.Decl.Pos()))
 			}
 		}
+	}
+}
+
+// ---------- an Error() that formats its own receiver ----------
+
+// ruleSelfFormat: fmt calls the Error() (or String()) method of an operand to format it with %v, %s, %q or without a
+// verb. A method Error() that hands its own receiver to such a function calls itself through fmt without end: the
+// goroutine's stack grows until the runtime kills the process - no recover boundary stops a stack overflow.
+func (c *Ctx) ruleSelfFormat(rule string) {
+	r := c.R
+	r.Rule(rule, "no method named Error, String or GoString of a library type passes its own receiver (x, *x or &x) as an operand to a formatting function of package fmt (Sprintf, Sprint, Sprintln, Errorf, Fprintf, Fprint, Fprintln, Printf, Print, Println, Appendf...) - except under a verb that does not call the method (%T, %p) or with the receiver converted to another type: fmt would call the method again, without end (expected count 0; counted: the methods looked at)", 1)
+	n, bad := 0, 0
+	for _, f := range c.libFns() {
+		if f.Decl.Recv == nil || len(f.Decl.Recv.List) != 1 || len(f.Decl.Recv.List[0].Names) != 1 {
+			continue
+		}
+		switch f.Obj.Name() {
+		case "Error", "String", "GoString":
+		default:
+			continue
+		}
+		n++
+		pk := f.Pkg
+		recv := pk.TypesInfo.Defs[f.Decl.Recv.List[0].Names[0]]
+		if recv == nil {
+			continue
+		}
+		isRecv := func(e ast.Expr) bool {
+			e = ast.Unparen(e)
+			if u, ok := e.(*ast.UnaryExpr); ok && u.Op == token.AND {
+				e = ast.Unparen(u.X)
+			}
+			if st, ok := e.(*ast.StarExpr); ok {
+				e = ast.Unparen(st.X)
+			}
+			id, ok := e.(*ast.Ident)
+			return ok && pk.TypesInfo.Uses[id] == recv
+		}
+		ast.Inspect(f.Decl.Body, func(nd ast.Node) bool {
+			call, ok := nd.(*ast.CallExpr)
+			if !ok {
+				return true
+			}
+			cal := callee(pk, call)
+			if cal == nil || cal.Pkg() == nil || cal.Pkg().Path() != "fmt" {
+				return true
+			}
+			name := cal.Name()
+			fmtIdx := -1
+			switch {
+			case strings.HasSuffix(name, "f"): // Sprintf, Errorf, Printf, Fprintf, Appendf
+				fmtIdx = 0
+				if strings.HasPrefix(name, "F") || strings.HasPrefix(name, "Append") {
+					fmtIdx = 1
+				}
+			}
+			first := fmtIdx + 1
+			if fmtIdx < 0 {
+				first = 0
+				if strings.HasPrefix(name, "F") || strings.HasPrefix(name, "Append") {
+					first = 1
+				}
+			}
+			var verbs []byte
+			if fmtIdx >= 0 && fmtIdx < len(call.Args) {
+				if s, isS := constString(pk, call.Args[fmtIdx]); isS {
+					verbs = fmtVerbs(s)
+				}
+			}
+			for i := first; i < len(call.Args); i++ {
+				if !isRecv(call.Args[i]) {
+					continue
+				}
+				if fmtIdx >= 0 && i-first < len(verbs) {
+					if v := verbs[i-first]; v == 'T' || v == 'p' {
+						continue
+					}
+				}
+				bad++
+				r.Bad(rule, fmt.Sprintf("%s | %s(%s)", f.Name(), exprString(call.Fun), exprString(call.Args[i])), "the method formats its own receiver: fmt calls the method again to format it, and so on until the stack overflows - a fatal error that no recover stops", c.pos(call.Pos()))
+			}
+			return true
+		})
+	}
+	if n < 3 {
+		r.Undecided(rule, "sites", fmt.Sprintf("only %d Error/String methods found in the library", n), "")
+		return
+	}
+	if bad == 0 {
+		r.Ok(rule, "library", fmt.Sprintf("%d Error/String/GoString methods: none hands its receiver to a formatting function", n), "")
 	}
 }
